@@ -87,50 +87,25 @@ theorem eyeBlockVal_eq (v h rs cst : Nat) (k : Int) (ro co : Nat) (hro : ro < v)
     · rw [if_neg he]
 
 
-/-- the global `linspace` values the blocks must reproduce: element `off + j` is
-    `(a + (off+j)*range) / div`; listed per block, scaled by that block's own `ldiv` -/
-def linspaceExpected (range a : Int) (ep : Bool) : Nat → List Nat → List Int
-  | _, [] => []
-  | off, bs :: rest =>
-    (List.range bs).map (fun (j : Nat) => (a + ((off + j : Nat) : Int) * range) * (linspaceDiv bs ep : Int))
-      ++ linspaceExpected range a ep (off + bs) rest
-
-theorem linspace_aux (range a : Int) (ep : Bool) : ∀ (cs : List Nat) (off : Nat),
-    (linspaceBlocks range ep (a + (off : Int) * range) cs).flatMap
-        (fun b => (List.range b.len).map (fun j => npLinspaceNum ep b j))
-      = linspaceExpected range a ep off cs
-  | [], _ => by simp [linspaceBlocks, linspaceExpected]
+theorem linspace_aux (a b range : Int) (num : Nat) (ep : Bool) : ∀ (cs : List Nat) (off : Nat),
+    ((linspaceOffsets off cs).map (fun p => linspaceBlock a b range num ep p.1 p.2)).flatten
+      = (List.range (sum cs)).map (fun (j : Nat) =>
+          if ep ∧ 1 < num ∧ off + j + 1 = num then b else a + ((off + j : Nat) : Int) * range)
+  | [], _ => by simp [linspaceOffsets, sum]
   | bs :: rest, off => by
-    simp only [linspaceBlocks, List.flatMap_cons, linspaceExpected]
-    have hnext : a + (off : Int) * range + range * (bs : Int) = a + ((off + bs : Nat) : Int) * range := by
-      rw [Int.natCast_add, Int.add_mul, Int.mul_comm range]; omega
-    rw [hnext, linspace_aux range a ep rest (off + bs)]
+    simp only [linspaceOffsets, List.map_cons, List.flatten_cons, sum_cons]
+    rw [linspace_aux a b range num ep rest (off + bs), List.range_add, List.map_append, List.map_map]
     congr 1
     apply List.map_congr_left
-    intro j hj
-    have hj : j < bs := by simpa using hj
-    simp only [npLinspaceNum]
-    -- (bstart)*ldiv + j*(bsSpace*range) = (a + (off+j)*range)*ldiv
-    have key : (j : Int) * ((if ep then bs - 1 else bs : Nat) : Int) = (j : Int) * (linspaceDiv bs ep : Int) := by
-      unfold linspaceDiv
-      cases ep
-      · simp only [Bool.false_eq_true, if_false]
-        have : bs ≠ 0 := by omega
-        simp [this]
-      · simp only [if_true]
-        by_cases h1 : bs - 1 = 0
-        · have : j = 0 := by omega
-          subst this; simp
-        · simp [h1]
-    have e1 : a + (off : Int) * range + ((if ep then bs - 1 else bs : Nat) : Int) * range - (a + (off : Int) * range)
-        = ((if ep then bs - 1 else bs : Nat) : Int) * range := by omega
-    rw [e1, ← Int.mul_assoc, key, Int.natCast_add, Int.add_mul, Int.add_mul, Int.add_mul, Int.add_mul]
-    rw [Int.mul_assoc (j : Int), Int.mul_comm (linspaceDiv bs ep : Int) range, ← Int.mul_assoc (j : Int)]
-    omega
+    intro j _
+    simp only [Function.comp, Nat.add_assoc]
 
-theorem linspace_lens (range : Int) (ep : Bool) : ∀ (cs : List Nat) (a : Int),
-    (linspaceBlocks range ep a cs).map (·.len) = cs
+theorem linspace_lens (a b range : Int) (num : Nat) (ep : Bool) : ∀ (cs : List Nat) (off : Nat),
+    ((linspaceOffsets off cs).map (fun p => linspaceBlock a b range num ep p.1 p.2)).map List.length = cs
   | [], _ => rfl
-  | bs :: rest, a => by simp [linspaceBlocks, linspace_lens range ep rest]
+  | bs :: rest, off => by
+    simp only [linspaceOffsets, List.map_cons, linspace_lens a b range num ep rest (off + bs)]
+    simp [linspaceBlock]
+
 
 end Dask.Creation
